@@ -216,6 +216,12 @@ def f_ref(n, keykind="bytes", datakind="bytes"):
     cover("mask-checked")
 
 
+def f_threads(t, nwrites):
+    """frames of concurrent senders stay whole on the wire (the interleaving query of C12 W-order-send, shared)"""
+    from .c12 import w_order_send
+    return w_order_send(t, 2, nwrites)
+
+
 def obligations(tier):
     thorough = tier == "thorough"
     nmax = 300 if thorough else 140
@@ -286,6 +292,9 @@ def obligations(tier):
         Obligation("F-short", f_short, [dict(n=n, entry=e) for n in (0, 1, 5, 126) for e in ("send", "send_binary", "send_frame")],
                    bounds="payload 0,1,5,126 bytes written in two pieces, every split point (symbolic); full short-write coverage is C12",
                    must_cover=["short-ret"], kernel=["WebSocket.send_frame", "_socket.send"]),
+        Obligation("F-threads", f_threads, [dict(t=2, nwrites=w) for w in (1, 2)],
+                   bounds="2 sender threads, each frame written in 1..2 pieces, ALL interleavings of the extracted lock/write events (C12's query)",
+                   must_cover=["order-send"], solver_timeout_ms=120000, kernel=["WebSocket.send_frame (send lock)"]),
         Obligation("F-big", f_full, big, bounds="payload lengths %s; %s" % ([b["n"] for b in big], "every byte symbolic" if thorough else "symbolic at the first/last 16 positions and 4 middle ones, zero elsewhere"),
                    must_cover=["frame-checked"], budget_s=1200, solver_timeout_ms=120000, chunk_s=600,
                    kernel=["ABNF.format", "_mask"]),
